@@ -77,7 +77,7 @@ def engineered_keys(rng, B, count):
 def gen_engineered(c):
     out = []
     rng = c.rng
-    reps = 60 if c.tier == "quick" else 600
+    reps = 200 if c.tier == "quick" else 600
     for B in (8, 16, 32, 64, 128):
         for _ in range(reps):
             # reach table size B by inserting filler keys that are spread out, then the engineered ones
@@ -105,9 +105,12 @@ def gen_engineered(c):
 def gen_random(c):
     out = []
     rng = c.rng
-    reps = 150 if c.tier == "quick" else 2000
+    reps = 400 if c.tier == "quick" else 2000
     for r in range(reps):
-        n = rng.choice([30, 100, 300, 1000]) if c.tier == "quick" else rng.choice([100, 1000, 3000, 10000])
+        if c.tier == "quick":
+            n = rng.choice([30, 100, 300, 1000])
+        else:      # long histories are expensive in the list-based extracted model: few of them
+            n = 10000 if r % 100 == 0 else 3000 if r % 25 == 0 else rng.choice([30, 100, 300, 1000])
         # universe: few distinct low parts x several high parts => collisions modulo every size reached
         lows = rng.choice([3, 5, 17])
         his = max(2, n // lows)
